@@ -1,6 +1,7 @@
 import CppUModel.Gen.MockEquals
 import CppUModel.Proofs.MockValue
 import CppUModel.Model.MockNamedValueList
+import CppUModel.Model.MockEntry
 /-!
 # C09 — mock parameter values compare by mathematical value, symmetrically
 
@@ -540,6 +541,71 @@ theorem repo_import_flips_shadowing (name : String) (c1 c2 : Nat) :
 theorem repo_clear_empty (r : Repo) (name : String) :
     r.clear.getComparatorForType name = none ∧ r.clear.getCopierForType name = none := ⟨rfl, rfl⟩
 
+/-! ## values entering through the API: every typed entry point creates a value of its own type
+
+`entryKind` follows the REGENERATED wiring: C struct member ↦ initialiser ↦ forwarder body (callee, declared parameter
+type; `Gen.CMock`, C19's translator) and the C++ `withParameter` overloads / explicit methods (`Gen.MockEquals`). -/
+
+/-- all 36 entry points (expected / actual × C++ overload, explicit C++ method, C interface × six integer kinds)
+    store a value of exactly the kind they are named for -/
+theorem api_entry_kind :
+    ∀ cls ∈ ["expected", "actual"], ∀ api ∈ ["ovl", "exp", "c"], ∀ k ∈ intKinds, entryKind cls api k = some k := by
+  decide
+
+theorem mkInt_isInt (k : String) (hk : k ∈ intKinds) (v : Int) : ∃ m, mkInt k v = some m ∧ m.isInt = true := by
+  simp [intKinds] at hk
+  rcases hk with h | h | h | h | h | h <;> subst h <;> simp [mkInt, MVal.isInt]
+
+/-- in the range of its kind, the stored value denotes the integer that was passed -/
+theorem mkInt_denote (k : String) (v : Int) :
+    (k = "int" → -2147483648 ≤ v → v ≤ 2147483647 → (mkInt k v).bind denote? = some v) ∧
+    (k = "uint" → 0 ≤ v → v ≤ 4294967295 → (mkInt k v).bind denote? = some v) ∧
+    (k = "long" → -9223372036854775808 ≤ v → v ≤ 9223372036854775807 → (mkInt k v).bind denote? = some v) ∧
+    (k = "ulong" → 0 ≤ v → v ≤ 18446744073709551615 → (mkInt k v).bind denote? = some v) ∧
+    (k = "llong" → -9223372036854775808 ≤ v → v ≤ 9223372036854775807 → (mkInt k v).bind denote? = some v) ∧
+    (k = "ullong" → 0 ≤ v → v ≤ 18446744073709551615 → (mkInt k v).bind denote? = some v) := by
+  refine ⟨?_, ?_, ?_, ?_, ?_, ?_⟩ <;> intro hk h1 h2 <;> subst hk <;>
+    simp [mkInt, denote?, BitVec.toInt_ofInt, BitVec.toNat_ofInt, Int.bmod_def] <;> omega
+
+/-- in range for a kind -/
+def InRange (k : String) (v : Int) : Prop :=
+  (k = "int" ∧ -2147483648 ≤ v ∧ v ≤ 2147483647) ∨ (k = "uint" ∧ 0 ≤ v ∧ v ≤ 4294967295) ∨
+  (k = "long" ∧ -9223372036854775808 ≤ v ∧ v ≤ 9223372036854775807) ∨ (k = "ulong" ∧ 0 ≤ v ∧ v ≤ 18446744073709551615) ∨
+  (k = "llong" ∧ -9223372036854775808 ≤ v ∧ v ≤ 9223372036854775807) ∨ (k = "ullong" ∧ 0 ≤ v ∧ v ≤ 18446744073709551615)
+
+theorem inRange_mem {k : String} {v : Int} (h : InRange k v) : k ∈ intKinds := by
+  rcases h with h | h | h | h | h | h <;> simp [intKinds, h.1]
+
+theorem inRange_denote {k : String} {v : Int} (h : InRange k v) : (mkInt k v).bind denote? = some v := by
+  have d := mkInt_denote k v
+  rcases h with h | h | h | h | h | h
+  · exact d.1 h.1 h.2.1 h.2.2
+  · exact d.2.1 h.1 h.2.1 h.2.2
+  · exact d.2.2.1 h.1 h.2.1 h.2.2
+  · exact d.2.2.2.1 h.1 h.2.1 h.2.2
+  · exact d.2.2.2.2.1 h.1 h.2.1 h.2.2
+  · exact d.2.2.2.2.2 h.1 h.2.1 h.2.2
+
+/-- Whichever way the expected and the actual integer enter (any of the three entry points on either side, any two
+    integer kinds): the expectation's `equals` accepts the actual value exactly when they are the same integer. -/
+theorem api_equals_iff (ea aa ke ka : String) (hea : ea ∈ ["ovl", "exp", "c"]) (haa : aa ∈ ["ovl", "exp", "c"])
+    (x y : Int) (hx : InRange ke x) (hy : InRange ka y) :
+    ∃ e a, entryValue "expected" ea ke x = some e ∧ entryValue "actual" aa ka y = some a ∧
+      (equalsGen e a = true ↔ x = y) := by
+  have hke := inRange_mem hx
+  have hka := inRange_mem hy
+  have k1 := api_entry_kind "expected" (by simp) ea hea ke hke
+  have k2 := api_entry_kind "actual" (by simp) aa haa ka hka
+  obtain ⟨e, he, hie⟩ := mkInt_isInt ke hke x
+  obtain ⟨a, ha, hia⟩ := mkInt_isInt ka hka y
+  refine ⟨e, a, by simp [entryValue, k1, he], by simp [entryValue, k2, ha], ?_⟩
+  have dx := inRange_denote hx
+  have dy := inRange_denote hy
+  rw [he] at dx; rw [ha] at dy
+  simp only [Option.bind_some] at dx dy
+  rw [equals_int_iff e a hie hia, dx, dy]
+  exact ⟨fun h => Option.some.inj h, fun h => by rw [h]⟩
+
 /-! ## non-vacuity: concrete values on both sides of every boundary the theorems talk about -/
 
 -- −1 as int, 2^32−1 as unsigned, 2^64−1 as unsigned long: same low bits, three different integers
@@ -584,5 +650,9 @@ example : NList.getValueByName (NList.add (NList.add [] ([97], 1)) ([97], 2)) [9
 example : NList.getValueByName (NList.add (NList.add [] ([97], 1)) ([98], 2)) [98] = some 2 := by decide
 example : Repo.getComparatorForType (Repo.installCopier (Repo.installComparator [] "T" 3) "T" 1) "T" = some 3 := by decide
 example : (setObjectPointer none (fun _ _ _ => true) "T" 5).comparator_.isNone = true := rfl
+
+-- API entry points
+example : entryValue "actual" "c" "ullong" 18446744073709551615 = some (.ullong 18446744073709551615#64) := rfl
+example : InRange "ullong" 18446744073709551615 ∧ InRange "llong" (-1) := by simp [InRange]
 
 end Mock
